@@ -86,6 +86,13 @@ type (
 
 // Validate implements custom validation for Spec
 func (spec Spec) Validate() error {
+	for _, p := range spec.Policies {
+		// the rate limiter divides by the refresh period.
+		if d, err := time.ParseDuration(p.LimitRefreshPeriod); err == nil && d <= 0 {
+			return fmt.Errorf("policy '%s': limitRefreshPeriod must be greater than 0", p.Name)
+		}
+	}
+
 URLLoop:
 	for _, u := range spec.URLs {
 		name := u.PolicyRef
